@@ -64,6 +64,71 @@ CHECKS = {
         "stand-in for the socket server in the controlled tier; HTTPS start "
         "failure not modelled",
         "DESIGN.md 4-C16", "listener"),
+    "C20": (
+        "Declarative TLA+ definition of DSP0004 ValueMap resolution (Claims) and a "
+        "code-shaped transcription of _create_for_element/_values_tuple/"
+        "_tovalues_single checked equal by TLC for all small arrays; TLC-enumerated, "
+        "TLC-simulated and seeded ValueMap/Values vectors run on the real "
+        "ValueMapping, observed lookup tables judged by TLC",
+        "TLC proves that the code-shaped machine (single dict, ordered range list, "
+        "neighbour recursion, size reconciliation) equals the declarative Claims for "
+        "all ValueMap arrays of length <=3 over a 43-entry alphabet x 14 Values shapes "
+        "x every value of a 4-bit type, and that the pinned tree's truncation index, "
+        "unguarded recursion and octal pattern do not; every array of length <=2, "
+        "simulated longer arrays and seeded random arrays are concretised for the 8 "
+        "integer types (dec/bin/oct/hex, property/method/parameter) and run on the "
+        "real ValueMapping; tovalues for every value of the 8-bit types (16-bit for a "
+        "sample, boundaries otherwise), tobinary and items() are compared by TLC with "
+        "the declarative definition.",
+        "small-scope (arrays <=3 resp. <=4 in TLC, <=6 in vectors); 32/64-bit numbers "
+        "through an order-preserving image of anchor neighbourhoods; tobinary/items "
+        "only for Values strings occurring once",
+        "DESIGN.md 4-C20", "valuemap"),
+    "C06": (
+        "TLA+ decision table Store(container, declared type, value class, "
+        "<<anchor,delta>> value) with code-shaped CIMInt/cimvalue model, and "
+        "symbol-level transcription of CIMDateTime print/parse, both "
+        "model-checked with TLC; TLC-emitted cells, values and mutated "
+        "strings run on the real code and judged by TLC; real32/real64 "
+        "class table with seeded floats",
+        "TLC checks for every cell of the table (10 containers x 15 declared "
+        "types x 35 value classes x boundary values of all 8 integer types) "
+        "that the code-shaped model stores exactly the declared CIM type in "
+        "range or rejects with TypeError/ValueError (4 wrong variants must "
+        "fail), and for every abstract datetime over field boundary classes "
+        "x 9 UTC offsets x all legal precisions that Str has 25 symbols and "
+        "Parse(Str(x)) = x, closed under single-symbol mutations (3 wrong "
+        "variants must fail); every emitted cell / value / mutated string "
+        "plus seeded random ones are executed on the real constructors, "
+        "cimvalue, the typed CIM elements and the CIM-XML parser, and each "
+        "observed vector is judged by TLC.",
+        "integers as anchor+delta (|delta|<=2 exhaustive, <=60 sampled); "
+        "real-number sub-claim is exploration level: TLC holds the class "
+        "table and spelling rule, concrete floats are seeded members of "
+        "spec-named classes (real32 compared as IEEE singles); a raising "
+        "constructor is drift, not a violation, unless the round trip breaks",
+        "DESIGN.md 4-C06", "cimtypes"),
+    "C18": (
+        "TLA+ requirement machine over the truth of who created what "
+        "(owned lists and full server content judged after every call) and a "
+        "TLC design model of Name-based discovery (regex vs ID equality over "
+        "all ID pairs, two managers); histories of real subscription managers "
+        "against mock WBEM servers validated by TLC",
+        "TLC explores create/discover/remove interleavings of two managers "
+        "for every pair of IDs up to length 3 over {a,b,dot,star,paren} and "
+        "proves Isolation, AddServerTotal and RemoveExactlyOwned for the "
+        "escaped discovery pattern (the unescaped legacy pattern must fail); "
+        "directed and seeded histories of 1-3 real WBEMSubscriptionManager "
+        "objects (IDs with regex metacharacters, prefixes, case variants) on "
+        "1-2 mock servers - add/remove destination, filter, subscription owned "
+        "and permanent, duplicates, removal while referenced, remove_server, "
+        "remove_all_servers, context exit, client restart, foreign instances - "
+        "are judged by TLC after every call (admissible outcome, exact server "
+        "content, owned lists = owned instances present).",
+        "mock server (tests' WbemServerMock + subscription providers); no "
+        "cross-manager subscriptions; two listener URL forms; one listed known "
+        "finding (unmarked owned subscription not rediscovered)",
+        "DESIGN.md 4-C18", "submgr"),
     "C10": (
         "TLA+ reference keyed map with set-valued status codes (RepoCore); "
         "code-shaped validation-order + dict/heap machine refinement in TLC; "
